@@ -33,6 +33,49 @@ def world_cases(**kw):
     return st.fixed_dictionaries({"scn": gen.scenarios(**kw), "schedule": gen.schedules()})
 
 
+def late_ops(max_size=1):
+    """Operator commands bound to a moment *near the end of a batch*: fired as soon as at most `running` batches are
+    active and at most `left` of their jobs have not finished, then held back for `steps` steps right after the
+    command's `release`-th lock release.  This is the window in which a whole node batch records its last results and
+    leaves the queue while another submitter is half-way through a round -- rare under step-number timing."""
+    return st.lists(st.fixed_dictionaries({
+        "cmd": st.sampled_from(["try", "try", "try", "show"]),
+        "running": st.sampled_from([1, 1, 2]),
+        "left": st.sampled_from([0, 1, 1, 2]),
+        "release": st.integers(1, 8),
+        "steps": st.integers(40, 300),
+    }), max_size=max_size)
+
+
+def install_late_ops(sim, specs, out=None):
+    import os
+
+    out = out or sim.out
+
+    for spec in specs or []:
+        def pred(ww, spec=spec):
+            if not os.path.exists(os.path.join(out, "submitter_groups.json")):
+                return False
+            active = [(jid, r) for jid, r in ww.slurm.items()
+                      if r["state"] == "RUNNING" and r["vt"] is not None and r["vt"].state != "done" and not r["vt"].dead
+                      and r.get("outdir") == out]
+            if not 1 <= len(active) <= spec["running"]:
+                return False
+            left = 0
+            for jid, r in active:
+                done = {j.name for j in ww.jobs if j.batch == jid and j.returncode is not None}
+                left += sum(1 for n in r["jobs"] if n not in done)
+            return left <= spec["left"]
+
+        def fire(ww, spec=spec):
+            if sim.is_complete(out):
+                return
+            vt = sim.user_cmd(["try-submit-jobs", out] if spec["cmd"] == "try" else ["show-status", "-o", out, "-n"])
+            vt.own_pauses = [{"release": spec["release"], "steps": spec["steps"]}]
+
+        sim.w.cond_events.append(("late-" + spec["cmd"], pred, fire))
+
+
 def viol(sig, msg):
     return {"sig": sig, "msg": msg}
 
